@@ -55,10 +55,28 @@ func (seg *Path) toBuffer(b *bytes.Buffer) {
 				b.WriteRune(',')
 			}
 			if k != nil {
-				b.WriteString(k.String())
+				writeEscapedKey(b, k.String())
 			} else {
 				b.WriteString("<nil>")
 			}
+		}
+	}
+}
+
+// writeEscapedKey percent-encodes every byte of a key value that is not an RFC 3986
+// unreserved character, so that the rendered path can be given back to Find: parseUrlPath
+// splits on '/', '=' and ',' and decodes each key with url.QueryUnescape ('%XX', '+').
+func writeEscapedKey(b *bytes.Buffer, s string) {
+	const hex = "0123456789ABCDEF"
+	for i := 0; i < len(s); i++ {
+		c := s[i]
+		if 'a' <= c && c <= 'z' || 'A' <= c && c <= 'Z' || '0' <= c && c <= '9' ||
+			c == '-' || c == '_' || c == '.' || c == '~' {
+			b.WriteByte(c)
+		} else {
+			b.WriteByte('%')
+			b.WriteByte(hex[c>>4])
+			b.WriteByte(hex[c&15])
 		}
 	}
 }
